@@ -526,7 +526,7 @@ def run_case(case):
     v = res['violation']
     if v:
         oc = history.origin_class(run.cfg.get('origin', 'nodata'))
-        if run.driver.restarts > 0:
+        if getattr(run, 'driver', None) is not None and run.driver.restarts > 0:
             oc = 'serialized'
         v['tag'] = f'{v["rule"]}/{oc}'
     import hashlib
@@ -536,7 +536,8 @@ def run_case(case):
     res['nontrivial'] = bool(
         c.get('probe:computed-subrange-read') or
         c.get('probe:cse-block-read') or c.get('probe:unbounded-range-read') or
-        (run.driver.restarts and c.get('ancestor-pairs-checked')))
+        (getattr(run, 'driver', None) is not None and run.driver.restarts and
+         c.get('ancestor-pairs-checked')))
     res['sample'] = {
         'origin': case.get('cfg', {}).get('origin'),
         'ops': [c01._short(o) for o in case.get('ops', [])[:8]],
